@@ -1,0 +1,27 @@
+//go:build verif
+
+package dns_naming
+
+import "github.com/irai/packet"
+
+// Verification hooks: compiled only with -tags verif. They never change the
+// behaviour of the handler; they only make it constructible without a NIC.
+
+// VerifNew returns a DNSHandler that is identical to the one built by New except
+// that no multicast socket is bound (mconn4, mconn6 and ssdpconn4 stay nil).
+// The packet processing functions (ProcessDNS, ProcessMDNS, ProcessNBNS,
+// ProcessSSDP, DNSFind, ...) do not use these sockets.
+func VerifNew(session *packet.Session) *DNSHandler {
+	h := new(DNSHandler)
+	h.session = session
+	h.DNSTable = make(map[string]packet.DNSEntry, 256)
+	h.mdnsCache = make(map[string]cache)
+	return h
+}
+
+// VerifResetMDNSCache empties the (source MAC, transaction id) response cache of ProcessMDNS.
+func (h *DNSHandler) VerifResetMDNSCache() {
+	h.mutex.Lock()
+	h.mdnsCache = make(map[string]cache)
+	h.mutex.Unlock()
+}
